@@ -130,6 +130,21 @@ func Main(c *run.Ctx) {
 					c.Undecided("reader watchdog fired")
 					break
 				}
+				if m := runawayRe.FindStringSubmatch(out.Stderr); m != nil && m[1] == fmt.Sprint(out.OpenIdx) && strings.Contains(head, "out of memory") {
+					// the live heap grew by more than heapGrowthLimit while this case was open
+					if m[4] != "" {
+						frame = m[4]
+					}
+					sig := "process-death/" + sigEndpoint(open.Endpoint) + "/" + frame + "/out-of-memory/grown-during-request"
+					c.Violation(sig, fmt.Sprintf("the reader process died on one request to %s: %s; the live heap had grown from %s to %s bytes while the request was open (computing in %s); case: %s", open.Endpoint, head, m[2], m[3], frame, clip(string(open.Case), 900)),
+						map[string]any{"case_index": out.OpenIdx, "case": open, "stderr_tail": tailS(out.Stderr, 6000)})
+					c.Case(open.Trigger + "|death")
+					c.Cover("deaths", sig, 1)
+					mu.Lock()
+					skip[open.WedgeKey] = true
+					mu.Unlock()
+					break
+				}
 				if n := oomBlock(head); n > 0 && n < 1<<30 {
 					// the address-space cap was hit by a modest allocation: the space was used up by
 					// earlier requests of this child, the open case is not shown to be the cause
@@ -206,6 +221,7 @@ func deathHead(stderr string) (head, frame string) {
 	return
 }
 
+var runawayRe = regexp.MustCompile(`VERIF-RUNAWAY case=(\d+) heap_at_start=(\d+) heap_now=(\d+) computing=(\S*)`)
 var oomRe = regexp.MustCompile(`cannot allocate (\d+)-byte block`)
 
 // oomBlock returns the size of the allocation that failed (0 if the head is not an out-of-memory report).
@@ -357,6 +373,7 @@ func (t *connTrack) done(addr string) bool {
 type fuzzer struct {
 	conns        *connTrack
 	harnessFault atomic.Pointer[string]
+	heap0        atomic.Uint64
 	c            *run.Ctx
 	sess         *sqldrv.Session
 	reg          *sqldrv.Registry
@@ -507,6 +524,7 @@ func Child(c *run.Ctx, name string) {
 		f.plog.take()
 		base := census()
 		openBefore := f.openRows()
+		stopHeap := f.watchHeap(gi)
 		f.nstmt.Store(0)
 		gone := make(chan struct{})
 		f.gone.Store(&gone)
@@ -515,6 +533,7 @@ func Child(c *run.Ctx, name string) {
 		outcome := f.send(cs, gone)
 		tSend := time.Since(t0)
 		if hf := f.harnessFault.Swap(nil); hf != nil {
+			stopHeap()
 			c.Case("")
 			c.Undecided(*hf)
 			f.cur.Store(nil)
@@ -522,6 +541,7 @@ func Child(c *run.Ctx, name string) {
 			continue
 		}
 		if outcome.kind == "unsendable" {
+			stopHeap()
 			c.Case("")
 			c.Cover("generator", "request not sendable", 1)
 			f.cur.Store(nil)
@@ -572,6 +592,7 @@ func Child(c *run.Ctx, name string) {
 			bound += 7 * time.Second
 		}
 		f.cur.Store(nil)
+		stopHeap()
 		ep := sigEndpoint(cs.Gen.Endpoint)
 		leak := true
 		switch {
@@ -796,6 +817,78 @@ func (f *fuzzer) send(cs *ccase, gone chan struct{}) outcome {
 	return outcome{kind: "answered", answer: fmt.Sprintf("%dxx", resp.Status/100), status: resp.Status}
 }
 
+// heapGrowthLimit: growth of the live heap during ONE request (result sets have at most 10000 short rows) beyond
+// which the request is held to consume memory without bound.
+const heapGrowthLimit = 3 << 30
+
+func heapNow() uint64 {
+	var ms runtime.MemStats
+	runtime.ReadMemStats(&ms)
+	return ms.HeapAlloc
+}
+
+// watchHeap samples the live heap while a case is open. When it has grown by more than heapGrowthLimit since
+// the case began, one line goes to stderr (the parent reads it if the process then dies on an allocation that is
+// itself small: the address space was used up by this request, not by earlier ones).
+func (f *fuzzer) watchHeap(gi int) (stop func()) {
+	h0 := heapNow()
+	f.heap0.Store(h0)
+	done := make(chan struct{})
+	go func() {
+		t := time.NewTicker(250 * time.Millisecond)
+		defer t.Stop()
+		for {
+			select {
+			case <-done:
+				return
+			case <-t.C:
+				if h := heapNow(); h > h0 && h-h0 > heapGrowthLimit {
+					where := ""
+					for _, g := range qrynActive(run.Census()) {
+						st := strings.SplitN(g.State, ",", 2)[0]
+						if st == "running" || st == "runnable" {
+							where = g.QrynFrames()[0]
+						}
+					}
+					fmt.Fprintf(os.Stderr, "\nVERIF-RUNAWAY case=%d heap_at_start=%d heap_now=%d computing=%s\n", gi, h0, h, where)
+					return
+				}
+			}
+		}
+	}()
+	var once sync.Once
+	return func() { once.Do(func() { close(done) }) }
+}
+
+// runaway decides a request that is unanswered at the client timeout and still computing by what it consumes
+// rather than by how long it takes: the same goroutine is running in the same qryn frames, and the live heap has
+// grown by more than 1 GiB since the request began and keeps rising over three samples 2 s apart.
+func (f *fuzzer) runaway(cs *ccase, gi int, cb []byte, g run.Goroutine, stuck []run.Goroutine) bool {
+	h0 := f.heap0.Load()
+	var hs [3]uint64
+	for i := range hs {
+		hs[i] = heapNow()
+		if i < 2 {
+			time.Sleep(2 * time.Second)
+		}
+	}
+	still := false
+	for _, g2 := range qrynActive(run.Census()) {
+		if g2.ID == g.ID && strings.Join(g2.QrynFrames(), "<") == strings.Join(g.QrynFrames(), "<") {
+			still = true
+		}
+	}
+	f.c.Cover("still-computing-heap-growth", fmt.Sprintf("%s|%s|grown>1GiB=%v rising=%v", cs.Gen.Endpoint, g.QrynFrames()[0], hs[2] > h0+1<<30, hs[1] > hs[0] && hs[2] > hs[1]), 1)
+	if !still || hs[2] < h0+1<<30 || hs[1] <= hs[0] || hs[2] <= hs[1] {
+		return false
+	}
+	fr := g.QrynFrames()[0]
+	f.c.Violation("runaway/"+sigEndpoint(cs.Gen.Endpoint)+"/"+fr, fmt.Sprintf("%s: no complete HTTP answer after %v; the request is still computing in %s and the live heap has grown from %d MiB when it began to %d, %d, %d MiB (samples 2 s apart), on a result set of at most %d rows; request %s; database script %s",
+		cs.Gen.Endpoint, clientWait, fr, h0>>20, hs[0]>>20, hs[1]>>20, hs[2]>>20, shapeRows(cs.DB.Shape), clip(cs.Gen.Req.String(), 400), cs.DB.class()),
+		map[string]any{"case_index": gi, "case": json.RawMessage(cb), "goroutine": clip(g.Raw, 4000)})
+	return true
+}
+
 // judgeNoAnswer applies the logical wedge criterion after the client timeout.
 func (f *fuzzer) judgeNoAnswer(cs *ccase, gi int, o outcome) {
 	c := f.c
@@ -820,6 +913,9 @@ func (f *fuzzer) judgeNoAnswer(cs *ccase, gi int, o outcome) {
 		for _, g := range set {
 			st := strings.SplitN(g.State, ",", 2)[0]
 			if st == "running" || st == "runnable" || st == "syscall" {
+				if f.runaway(cs, gi, cb, g, stuck) {
+					return
+				}
 				c.Undecided("request unanswered after " + clientWait.String() + " but still computing in " + g.QrynFrames()[0])
 				c.Cover("still-computing-at-timeout", cs.Gen.Endpoint+"|"+g.QrynFrames()[0]+"|"+strings.Join(cs.Gen.Specials, ","), 1)
 				return
